@@ -31,7 +31,15 @@
      partition_quadrants, parts never share a storage position (C10_partition_parts_in_bounds, ..).
    Own correspondence (Run/RunC10.v): closure / iterator panic injection, tensor mutation
    histories (10 7), matrix mutation histories under hooks (10 8), stack / chain constructor
-   walks (10 9), also under one outer TensorIndex / TensorExpansion (nested views). *)
+   walks (10 9), also under one outer TensorIndex / TensorExpansion (nested views).
+   Wave 4 (end of this file; Proofs/C10EmptyP.v): a source WITHOUT rows or WITHOUT columns is never
+   touched - the row-/column-major iterators (shared, mutable and owning; every constructor builds
+   the same counters) over ANY source hand out nothing at any call and report length 0
+   (C10_empty_source_iterators_touch_nothing, C10_empty_source_owned_iterators_touch_nothing).
+   Own correspondence added: (10 10 . c09-case) EVERY public iterator constructor / API form over
+   empty and degenerate sources (C09's language and harness inside C10's own cases), (10 11) /
+   (10 12) RecordMatrix / RecordTensor constants / variables / from_existing over such sources, an
+   access-counting source proving that a rejected (empty) argument was never read. *)
 From Coq Require Import List ZArith NArith Bool Arith.
 From EasyML Require Import Base.Sx Model.Shape Model.Tensor Model.U64 Model.Fallible
      Proofs.ShapeP Proofs.C01P Proofs.C16P Proofs.C10P.
@@ -485,3 +493,37 @@ Print Assumptions C10_partition_parts_in_bounds.
 Print Assumptions C10_quadrants_parts_in_bounds.
 Print Assumptions C10_matrix_part_resolves_in_bounds.
 Print Assumptions C10_matrix_part_after_history_in_bounds.
+
+(* ---- Wave 4: empty sources (Proofs/C10EmptyP.v) ---- *)
+From EasyML Require Model.IterG Proofs.C10EmptyP.
+
+(* Row-/column-major iteration (RowMajor / ColumnMajor {,Reference,ReferenceMut}Iterator, through
+   any constructor) over ANY source whose view has rows * columns = 0: every one of k calls of
+   next() returns None with length 0 - no place is handed to get_reference_unchecked(_mut). *)
+Theorem C10_empty_source_iterators_touch_nothing :
+  forall St A (o : IterG.msource St A) (row_major : bool) (s : St) (k : nat),
+  (IterG.mo_rows o s * IterG.mo_cols o s = 0)%N ->
+  fst (ShapeIter.drive (IterG.gmi_next o) IterG.gmi_len k (IterG.gmi_from o row_major s))
+    = repeat (None, 0%N) k /\
+  IterG.gmi_len (IterG.gmi_from o row_major s) = 0%N.
+Proof. exact @C10EmptyP.empty_source_yields_nothing. Qed.
+
+(* The owning iterators (RowMajorOwnedIterator / ColumnMajorOwnedIterator, `from` and
+   `from_numeric`: mem::replace through get_reference_unchecked_mut) likewise. *)
+Theorem C10_empty_source_owned_iterators_touch_nothing :
+  forall St A (o : IterG.msource St A) (dflt : A) (row_major : bool) (s : St) (k : nat),
+  (IterG.mo_rows o s * IterG.mo_cols o s = 0)%N ->
+  fst (ShapeIter.drive (IterG.gmi_next_owned o dflt) IterG.gmi_len k (IterG.gmi_from o row_major s))
+    = repeat (None, 0%N) k.
+Proof. exact @C10EmptyP.empty_source_owned_yields_nothing. Qed.
+
+(* non-vacuous: a 0x0 partition part of a 2x3 matrix (partition(&[0], &[0]), part 0) *)
+Example C10_nonvacuous_empty_source :
+  exists v, obind (MatrixViews.partition 2 3 [0%N] [0%N])
+                  (fun parts => match nth_error parts 0 with Some p => Ok (MatrixViews.VPart p) | None => Panic end) = Ok v /\
+  (IterG.mo_rows (IterG.mview_source (T := Z) v) [1;2;3;4;5;6]%Z
+   * IterG.mo_cols (IterG.mview_source (T := Z) v) [1;2;3;4;5;6]%Z = 0)%N.
+Proof. eexists. split; vm_compute; reflexivity. Qed.
+
+Print Assumptions C10_empty_source_iterators_touch_nothing.
+Print Assumptions C10_empty_source_owned_iterators_touch_nothing.
